@@ -1,6 +1,131 @@
-// Positive controls: deliberately wrong siblings of library code.  Parsed in the
-// same extraction pass as the library; every rule must flag its controls on every
-// run (else the check exits 2) and controls are never counted as violations.
+// Positive controls: deliberately wrong siblings of library code.  Parsed by the same
+// extractor as the library; in "control mode" this file is treated as library code and every
+// pattern rule must flag its control on every run (else the check exits 2: a rule that
+// matches nothing would pass vacuously forever).  Controls are never counted as violations.
 #include <bspline/Core.h>
 #include <bspline/interpolation/interpolation.h>
-namespace vt_control {}
+
+#include <cstdlib>
+#include <stdexcept>
+#include <vector>
+
+namespace vt_control {
+using namespace bspline;
+using namespace bspline::operators;
+using D = double;
+
+// R-GRD.a: combines two splines without comparing their grids
+template <size_t A, size_t B>
+size_t ctl_unguarded(const Spline<D, A> &a, const Spline<D, B> &b) {
+  return a.getCoefficients().size() + b.getCoefficients().size();
+}
+// R-GRD.a: guard only on one path
+template <size_t A, size_t B>
+size_t ctl_guard_one_path(const Spline<D, A> &a, const Spline<D, B> &b) {
+  if (a.getSupport().empty()) return 0;
+  if (!a.getSupport().hasSameGrid(b.getSupport())) throw BSplineException(ErrorCode::DIFFERING_GRIDS);
+  return 1;
+}
+// R-GRD.c: wrong error code
+template <size_t A, size_t B>
+size_t ctl_wrong_code(const Spline<D, A> &a, const Spline<D, B> &b) {
+  if (!a.getSupport().hasSameGrid(b.getSupport())) throw BSplineException(ErrorCode::UNDETERMINED);
+  return 1;
+}
+// R-DIV: reciprocal formed in the scalar's own type
+template <typename S, typename O>
+auto ctl_div(O &&o, const S &s) {
+  return ScalarMultiplication(static_cast<S>(1) / s, std::forward<O>(o));
+}
+template <typename S, typename O>
+auto ctl_neg(O &&o, const S &s) {
+  return ScalarMultiplication(-s, std::forward<O>(o));
+}
+// R-OPT: unchecked optional dereference
+inline size_t ctl_opt(const support::Support<D> &s) {
+  const auto r = s.relativeFromAbsolute(1);
+  return *r;
+}
+inline size_t ctl_opt_wrong_polarity(const support::Support<D> &s) {
+  const auto r = s.relativeFromAbsolute(1);
+  if (!r) return *r;
+  return 0;
+}
+// R-THR: foreign exception type
+inline void ctl_throw() { throw std::runtime_error("not the library's exception"); }
+// R-EX: erase / dereference of the container's own end()
+inline void ctl_erase_end(std::vector<int> &v) { v.erase(v.end()); }
+inline int ctl_deref_end(std::vector<int> &v) { return *v.end(); }
+// R-OWN.mutable / field / iface / commit
+struct CtlCache {
+  mutable size_t hits = 0;
+  size_t value = 0;
+  size_t get() const { return ++hits, value; }
+};
+struct CtlHandle {
+  const support::Grid<D> &grid;
+  D *raw;
+  std::shared_ptr<std::vector<D>> shared;
+  std::vector<D>::const_iterator it;
+};
+class CtlIface {
+  std::vector<D> _v;
+  size_t _n = 0;
+
+ public:
+  void poke() { _n++; }
+  std::vector<D> &storage() { return _v; }
+  D *data() { return _v.data(); }
+  void commitEarly(const support::Support<D> &s) {
+    _n = 1;
+    _n = s.absoluteFromRelative(7);  // may throw after the write above
+  }
+};
+// R-OWN.cast
+inline void ctl_constcast(const std::vector<D> &v) { const_cast<std::vector<D> &>(v).clear(); }
+// R-EFF.static / closure
+inline size_t ctl_counter() {
+  static size_t calls = 0;
+  return ++calls;
+}
+inline int ctl_rand() { return std::rand(); }
+inline const char *ctl_env() { return std::getenv("HOME"); }
+// R-LIFE: reference into a temporary
+inline size_t ctl_dangling(const Spline<D, 1> &a) {
+  const auto &sup = (a * 2.0).getSupport();
+  return sup.size();
+}
+
+inline void instantiate() {
+  Spline<D, 1> a{support::Grid<D>{0.0, 1.0}};
+  Spline<D, 2> b{a.getSupport().getGrid()};
+  (void)ctl_unguarded(a, b);
+  (void)ctl_guard_one_path(a, b);
+  (void)ctl_wrong_code(a, b);
+  (void)ctl_div(X<1>{}, 2);
+  (void)ctl_neg(X<1>{}, 2u);
+  (void)ctl_opt(a.getSupport());
+  (void)ctl_opt_wrong_polarity(a.getSupport());
+  std::vector<int> v;
+  ctl_erase_end(v);
+  (void)ctl_deref_end(v);
+  CtlCache c;
+  (void)c.get();
+  CtlIface i;
+  i.poke();
+  (void)i.storage();
+  (void)i.data();
+  i.commitEarly(a.getSupport());
+  std::vector<D> w;
+  ctl_constcast(w);
+  (void)ctl_counter();
+  (void)ctl_rand();
+  (void)ctl_env();
+  (void)ctl_dangling(a);
+  D x = 0;
+  std::vector<D> vv;
+  CtlHandle h{a.getSupport().getGrid(), &x, nullptr, vv.begin()};
+  (void)h;
+  if (false) ctl_throw();
+}
+}  // namespace vt_control
